@@ -112,6 +112,25 @@ def _gen_one(rng):
             maxrank.append(rank[x])
             depth.append(0)
             return len(cps) - 1
+        if lvl == 0 and style != "singles" and rng.random() < 0.12:
+            # twin gates: one parent gate over two checkpoints that list the SAME dependencies (in another order) under
+            # different gate types, e.g. "exactly one" = AND(OR(a, b), NAND(a, b))
+            nd = rng.randint(2, 3)
+            deps = [["cmp", new_cmp(limit)] for _ in range(nd)]
+            twin = [list(d) for d in deps]
+            rng.shuffle(twin)
+            g1, g2 = rng.sample(GATES, 2)
+            mr = max(cmp_rank(d[1]) for d in deps)
+            pair = []
+            for g, dd in ((g1, deps), (g2, twin)):
+                cps.append({"gate": g, "deps": dd, "info": rng.random() < 0.2})
+                maxrank.append(mr)
+                depth.append(0)
+                pair.append(len(cps) - 1)
+            cps.append({"gate": rng.choice(GATES), "deps": [["ref", pair[0]], ["ref", pair[1]]], "info": rng.random() < 0.2})
+            maxrank.append(mr)
+            depth.append(1)
+            return len(cps) - 1
         if style == "singles":
             nd = 1 if rng.random() < 0.8 else rng.randint(2, 3)
         elif style == "gates":
@@ -375,11 +394,16 @@ repo = sys.argv[1]
 sys.path.insert(0, repo)
 os.chdir(repo)
 import requests
+import time as _time
+_time.sleep = lambda *a, **k: None      # the board service is stubbed: waiting for it is pointless
 from visualization.dependency_graph import DependencyGraph
 from validation.schema_validator import SchemaValidator
 
 scratch = tempfile.mkdtemp(prefix="ois-graph-corr-", dir="/var/tmp")
 json.dump({"access_token": "x"}, open(os.path.join(scratch, "tokens.json"), "w"))
+
+
+from copy import deepcopy as _deepcopy
 
 
 class Recorder:
@@ -388,16 +412,38 @@ class Recorder:
 
     def post(self, url, json=None, headers=None):
         k = len(self.calls)
+        if k > 3000:
+            raise RuntimeError("more than 3000 requests for one board")
         kind = self.script[k] if k < len(self.script) else 100000 + k
-        self.calls.append((url, json))
+        self.calls.append((url, _deepcopy(json)))      # the payload as it is at request time
+
+        # error bodies of the board service come in several shapes (all carry type "error"); which one is used
+        # depends only on the position of the first error in the script
+        if kind == "err":
+            first = self.script.index("err")
+            body = ['{"type": "error", "message": "scripted error"}',
+                    '{"type": "error", "status": 429, "code": "tooManyRequests", "message": "rate limit exceeded"}',
+                    '{"type": "error", "status": 500, "code": "internalError", "message": "internal error", "context": {"id": "77"}}',
+                    '{"id": "5", "type": "error", "status": 400, "message": "invalid payload"}'][first % 4]
+        else:
+            body = '{"id": "%d"}' % kind
 
         class Response:
-            text = '{"type": "error", "message": "scripted error"}' if kind == "err" else '{"id": "%d"}' % kind
+            text = body
 
         return Response()
 
 
 def abstract(url, p):
+    try:
+        return abstract_(url, p)
+    except BaseException as e:
+        # a request the implementation should never send (e.g. an item id that is None): kept as it is, so that the
+        # comparison with the expected sequence reports it
+        return ["malformed", url.rsplit("/", 1)[-1], "%s: %s" % (type(e).__name__, str(e)[:80])]
+
+
+def abstract_(url, p):
     if url.endswith("/boards"):
         return ["board"]
     if url.endswith("/connectors"):
@@ -477,7 +523,10 @@ def make_job(case, doc, rng, n_requests_hint=60):
     for k in sorted(set([0, 1, rng.randint(2, 8), rng.randint(5, n_requests_hint)])):
         s = ok(400)
         s[k] = "err"
-        scripts.append(s[:k + 1] + s[k + 1:])
+        if rng.random() < 0.5:
+            # the service keeps answering with the error (whatever is sent again or next is refused as well)
+            s = s[:k] + ["err"] * (len(s) - k)
+        scripts.append(s)
     return {"doc": doc, "valid_doc": valid_doc, "validate": full, "scripts": scripts}
 
 
@@ -573,6 +622,8 @@ def coq_requests(case, res, run):
     for q in run["requests"]:
         if q[0] == "board":
             out.append("CreateBoard")
+        elif q[0] == "malformed":
+            out.append("CreateBoard")      # reported by spec_check; any placeholder makes the comparison fail
         elif q[0] == "elbow":
             out.append("Elbow %s %s" % (_z(q[1]), _z(q[2])))
         elif q[0] == "conn":
@@ -747,6 +798,10 @@ def spec_check(case, res):
     mult = Counter((f, t) for f, t in res["edges"])
     n_info = sum(1 for a in case["actions"] if a["info"]) + sum(1 for j in gates if case["cps"][j]["info"])
     total = 1 + len(nodes) + n_info + sum(1 if k == 1 else 3 * k for k in mult.values())
+    for run in res["runs"]:
+        for q in run["requests"]:
+            if q[0] == "malformed":
+                return "C20: malformed %s request (%s)" % (q[1], q[2])
     for run in res["runs"]:
         reqs = run["requests"]
         if run["status"] != "finished":
